@@ -5601,13 +5601,14 @@ func (t *Terminal) Loop() error {
 				t.input = append(append(prefix, event.Char), t.input[t.cx:]...)
 				t.cx++
 			case actPrevHistory:
-				if t.history != nil {
+				// The query cannot change while the input is hidden
+				if t.history != nil && !t.inputless {
 					t.history.override(string(t.input))
 					t.input = trimQuery(t.history.previous())
 					t.cx = len(t.input)
 				}
 			case actNextHistory:
-				if t.history != nil {
+				if t.history != nil && !t.inputless {
 					t.history.override(string(t.input))
 					t.input = trimQuery(t.history.next())
 					t.cx = len(t.input)
